@@ -34,6 +34,9 @@ pub struct Src {
     pub vals: Vec<Vec<u8>>,
     #[cfg(not(kani))]
     pub pos: usize,
+    /// native search mode: values beyond the recorded ones are generated (boundary-biased) and recorded
+    #[cfg(not(kani))]
+    pub gen: Option<u64>,
     /// labels of failed obligations (native mode only)
     pub failed: Vec<&'static str>,
     /// labels of reached covers (native mode only)
@@ -51,7 +54,23 @@ impl Src {
     }
     #[cfg(not(kani))]
     pub fn new(vals: Vec<Vec<u8>>) -> Self {
-        Src { vals, pos: 0, failed: Vec::new(), covered: Vec::new(), assume_failed: false, exhausted: false }
+        Src { vals, pos: 0, gen: None, failed: Vec::new(), covered: Vec::new(), assume_failed: false, exhausted: false }
+    }
+
+    /// Search mode: every value is generated from the given seed (xorshift), biased towards boundary patterns.
+    #[cfg(not(kani))]
+    pub fn new_search(seed: u64) -> Self {
+        Src { vals: Vec::new(), pos: 0, gen: Some(seed | 1), failed: Vec::new(), covered: Vec::new(), assume_failed: false, exhausted: false }
+    }
+
+    #[cfg(not(kani))]
+    fn gen_u64(&mut self) -> u64 {
+        let mut x = self.gen.unwrap();
+        x ^= x << 13;
+        x ^= x >> 7;
+        x ^= x << 17;
+        self.gen = Some(x);
+        x.wrapping_mul(0x2545F4914F6CDD1D)
     }
 
     #[cfg(not(kani))]
@@ -62,6 +81,27 @@ impl Src {
             for i in 0..N.min(v.len()) {
                 out[i] = v[i];
             }
+            self.pos += 1;
+        } else if self.gen.is_some() {
+            let r = self.gen_u64();
+            let pick = r % 8;
+            let word: u64 = match pick {
+                0 => 0,
+                1 => u64::MAX,
+                2 => u64::MAX - (self.gen_u64() % 16),
+                3 => self.gen_u64() % 16,
+                _ => self.gen_u64(),
+            };
+            let b = word.to_le_bytes();
+            for i in 0..N {
+                out[i] = b[i % 8];
+            }
+            if N == 4 && pick >= 4 && pick < 6 {
+                // plausible f32 values: small numbers, +-0, +-inf, NaN
+                let specials: [u32; 8] = [0, 0x8000_0000, 0x3F80_0000, 0xBF80_0000, 0x7F80_0000, 0xFF80_0000, 0x7FC0_0000, 0x3F00_0000];
+                out.copy_from_slice(&specials[(r >> 8) as usize % 8].to_le_bytes()[..N]);
+            }
+            self.vals.push(out.to_vec());
             self.pos += 1;
         } else {
             self.exhausted = true;
